@@ -106,7 +106,11 @@ pub(crate) fn run() -> (Result<(), Error>, Option<StdinLogReader>) {
         // TODO(someday): In the original, there's a state.rollback call.
         // Unclear what this is trying to do.
         assert!(ps.is_flushed());
-        let return_tokens_result = server.force_return_tokens();
+        let settled = server.block_on(server.handle().settle_with_make_parent());
+        if let Err(e) = &settled {
+            log_err!("unexpected error: {}", e);
+        }
+        let return_tokens_result = settled.and(server.force_return_tokens());
         if let Err(e) = &return_tokens_result {
             log_err!("unexpected error: {}", e);
         }
